@@ -24,6 +24,7 @@ type SpecCtx struct {
 	pos    token.Pos               // position for LookupParent
 	imports map[string]*types.Package
 	inOld  bool
+	cur    *State // the state outside old(...) (for locals, which old does not rewind)
 	this   *Val
 	tsubst map[string]types.Type // callee type parameter name -> type argument at this call
 }
@@ -276,7 +277,17 @@ func (ex *Exec) evalIdent(st *State, id *ast.Ident, sc *SpecCtx) *Val {
 		return &Val{Sh: leafShape(types.Typ[types.UntypedNil], "Int"), T: types.Typ[types.UntypedNil], S: "0"}
 	case *types.Var:
 		if sc != nil && sc.inOld {
-			// entry value of a parameter / variable
+			// entry value of a parameter / package variable. A local declared in the body has no entry
+			// value: inside old(...) it denotes its current value (old only rewinds memory), so that
+			// old(g(local)) reads the entry state at an index computed now.
+			if _, atEntry := sc.old.vars[o]; atEntry || o.Parent() == nil || o.Pkg() == nil || o.Parent() == o.Pkg().Scope() || !ex.regionStart.IsValid() || o.Pos() < ex.regionStart {
+				return ex.readVar(sc.old, o)
+			}
+			if sc.cur != nil {
+				if _, cur := sc.cur.vars[o]; cur {
+					return ex.readVar(sc.cur, o)
+				}
+			}
 			return ex.readVar(sc.old, o)
 		}
 		return ex.readVar(st, o)
@@ -503,6 +514,10 @@ func (ex *Exec) stepField(st *State, c cursor, i int, pos token.Pos) cursor {
 	t := c.t
 	if pt, ok := t.Underlying().(*types.Pointer); ok {
 		pv := ex.cursorVal(st, c)
+		if c.loc != nil && c.loc.Heap {
+			// following a pointer stored in a (possibly guarded) field reads that field
+			ex.guardCheck(st, c.loc, posAt(pos), false)
+		}
 		if pv.Loc != nil {
 			c = cursor{loc: pv.Loc, t: pt.Elem()}
 		} else {
@@ -534,6 +549,10 @@ func (ex *Exec) stepField(st *State, c cursor, i int, pos token.Pos) cursor {
 	}
 	return cursor{val: k, t: f.Type()}
 }
+
+type posAt token.Pos
+
+func (p posAt) Pos() token.Pos { return token.Pos(p) }
 
 func (ex *Exec) baseCursor(st *State, x ast.Expr, sc *SpecCtx) cursor {
 	if l := ex.place(st, x, sc); l != nil {
@@ -1129,6 +1148,10 @@ func (ex *Exec) convert(st *State, v *Val, to types.Type, pos token.Pos) *Val {
 	if from == nil {
 		return &Val{Sh: toSh, T: to, S: v.S, Kids: v.Kids}
 	}
+	if b, ok := from.(*types.Basic); ok && b.Kind() == types.UntypedNil {
+		// T(nil): the zero value of T
+		return ex.zeroVal(to)
+	}
 	switch {
 	case toSh.Kind == "any":
 		return ex.toAnyAs(v, to)
@@ -1683,6 +1706,10 @@ func (ex *Exec) evalTypeAssert(st *State, e *ast.TypeAssertExpr, sc *SpecCtx, co
 	if !commaOk && sc == nil {
 		ex.safety(st, "type-assert", e.Pos(), ok)
 	}
+	if commaOk && to != nil && v != nil && v.Sh != nil {
+		// v, ok := x.(T): the zero value of T when the assertion fails
+		v = ex.iteVal(ok, v, ex.zeroVal(to))
+	}
 	return []*Val{v, ex.boolVal(ok)}
 }
 
@@ -1727,7 +1754,13 @@ func (ex *Exec) typeAssert(st *State, x *Val, to types.Type) (*Val, string) {
 			okb := "(" + fname + " " + tag + " " + x.kid("ty").S + ")"
 			v := ex.freshVal(to, "ta")
 			if v.Sh.IsLeaf() && v.Sh.Leaf == "Int" {
-				v = &Val{Sh: v.Sh, T: to, S: x.kid("ref").S}
+				// the asserted interface value holds a dynamic type, so it is not the nil interface
+				ref := x.kid("ref").S
+				v = &Val{Sh: v.Sh, T: to, S: ref}
+				if ex.specDepth == 0 && ex.bound == 0 {
+					st.assume(implies(and(not(eq(tag, "0")), okb), not(eq(ref, "0"))))
+					ex.assumption("a value whose dynamic type implements the asserted interface is not a typed nil pointer (the resulting interface value is treated as non-nil)")
+				}
 			}
 			return v, and(not(eq(tag, "0")), okb)
 		}
